@@ -123,7 +123,7 @@ def other_receiver(spec, axis, rng=None):
 
 
 def gen(rng, tier):
-    n = 420 if tier == 'quick' else 4200
+    n = 900 if tier == 'quick' else 9000
     # a systematic sweep first: every k x axis x pattern x call once
     for k in (1, 2, 3, 4):
         for axis in AXES:
